@@ -7,6 +7,7 @@ import (
 	"go/ast"
 	"go/token"
 	"go/types"
+	"regexp"
 	"strings"
 )
 
@@ -230,6 +231,7 @@ func checkC02(c *Ctx) {
 			"query parameters are not declared for every verb in the OpenAPI operation")
 	}
 	c02QueryWiring(c)
+	c02ParamTableFidelity(c)
 }
 
 func objOf(ep *EmittedPkg, name string) *types.Func {
@@ -619,4 +621,57 @@ func c02QueryWiring(c *Ctx) {
 				fmt.Sprintf("%s: the %s generated for a request with a query-annotated field does not contain %s: the value sent in the query string never reaches the handler's request message", s, g.name, g.want))
 		}
 	}
+}
+
+// c02ParamTableFidelity: R02i — each entry of the emitted per-method query/path parameter tables carries the
+// annotation's own values: QueryName ← ParamName, FieldName ← FieldName, Required ← Required, nothing else.
+func c02ParamTableFidelity(c *Ctx) {
+	r := c.R
+	r.Rule("R02i", "the emitted query-parameter table copies name, field and required flag of the annotation verbatim", 1)
+	ri := c.Root(pkgHTTP, "_http.pb.go")
+	if ri == nil {
+		r.Unres("R02i", "_http.pb.go", "", "unit root not found")
+		return
+	}
+	ex := c.Explore(ri.Fn, 1, 4000)
+	type bad struct{ pos, msg string }
+	bads := map[string]bad{}
+	n := 0
+	want := []*regexp.Regexp{regexp.MustCompile(`\.ParamName$`), regexp.MustCompile(`\.FieldName$`), regexp.MustCompile(`^(strconv\.FormatBool\()?[^&|!]*\.Required\)?$`)}
+	names := []string{"QueryName", "FieldName", "Required"}
+	for _, v := range ex.Variants {
+		for _, u := range v.Units {
+			for _, l := range u.Lines {
+				t := lineText(l.Segs)
+				if !strings.HasPrefix(strings.TrimSpace(t), `{QueryName: "`) {
+					continue
+				}
+				n++
+				var holes []*Hole
+				for _, sg := range l.Segs {
+					if sg.Hole != nil {
+						holes = append(holes, sg.Hole)
+					}
+				}
+				if len(holes) != 3 {
+					bads["shape"] = bad{c.P.Pos(l.Pos), fmt.Sprintf("the table entry is printed with %d variable parts instead of three (name, field, required): %s — a part of the annotation is replaced by a constant or a decision of the generator", len(holes), holeFree(t))}
+					continue
+				}
+				for i, h := range holes {
+					k := eraseIters(h.Key)
+					if !want[i].MatchString(k) {
+						bads[names[i]] = bad{c.P.Pos(l.Pos), fmt.Sprintf("%s of the emitted QueryParamConfig is %s, not the annotation's own value: the server's binder then treats the parameter differently from what the contract (OpenAPI, clients) publishes", names[i], k)}
+					}
+				}
+			}
+		}
+	}
+	for _, k := range sortedKeys(bads) {
+		r.Bad("R02i", "query parameter table: "+k, bads[k].pos, bads[k].msg, nil)
+	}
+	if n == 0 {
+		r.Undec("R02i", "query parameter table entries", "", "no `{QueryName: …}` line in any variant of *_http.pb.go")
+		return
+	}
+	r.OKd("R02i", "query parameter table entries copy the annotation", "", map[string]any{"lines": n, "deviations": len(bads)})
 }
